@@ -1,5 +1,9 @@
 """Generated/Match.lean: the guard of match.py on the loaded chain (boolean AST), and the constants/relations of the
-zero-snapping and code-length statements of match.main.  Fail closed on any shape not listed here."""
+zero-snapping and code-length statements of match.main; the statement order (nll test < nparams==0 < guard < conversion < Fisher test),
+where the conversion is the `try: p, fish = simplifier.convert_params(...)` block or an `if <chain empty>: p = ...; fish = ... else: ...; try:
+...convert_params...` split (`convShortcutOnEmptyChain`); and the ALIAS table `snapPaths` (one entry per array written in place inside the
+loop and origin reaching the write, `snapTargetFresh` = fresh row-local array; rules in _norm_c05.py) that
+`ESR.C05.rows_do_not_share_state` decides.  Fail closed on any shape not listed here."""
 import ast
 from fractions import Fraction
 import extract
